@@ -2,5 +2,5 @@ SPECIFICATION Spec
 CONSTANTS
   MetricMode = "all"
   MaxProof = 4
-INVARIANTS SpecHonest SpecBinding SpecProof SpecExpiry SpecHistory
+INVARIANTS SpecHonest SpecBinding SpecProof SpecExpiry SpecHistory SpecProofExpiry SpecFine
 CHECK_DEADLOCK FALSE
